@@ -1081,6 +1081,14 @@ impl<T: Config> P2PSession<T> {
                     .try_into()
                     .expect("frames ahead is negative despite being positive."),
             });
+            self.trim_event_queue();
+        }
+    }
+
+    /// Discards the oldest events while more than `MAX_EVENT_QUEUE_SIZE` are stored.
+    fn trim_event_queue(&mut self) {
+        while self.event_queue.len() > MAX_EVENT_QUEUE_SIZE {
+            self.event_queue.pop_front();
         }
     }
 
@@ -1209,6 +1217,7 @@ impl<T: Config> P2PSession<T> {
                         remote.pending_checksums.remove_entry(&frame);
                     }
                 }
+                self.trim_event_queue();
             }
             DesyncDetection::Off => (),
         }
